@@ -60,3 +60,13 @@ claimed["C08"] = (
  "exhaustive enumeration of registration sets with unregistered / optional dependencies on the real container against the reference resolvability rule",
  "All DAGs on <=3 services (4 with 5 lifetime patterns; all 81 in thorough) x every subset of non-root services unregistered x lifetimes x {plain, keyed, group} x optional-ness patterns x dependent form {In constructor, positional constructor, void initializer, error-only initializer}: Build succeeds iff no lifetime conflict and no missing required dependency; after success no resolution or scope creation fails with 'service not found'.",
  "no claim beyond 4 services", "DESIGN.md 6/C08")
+claimed["C06"] = (
+ "exhaustive enumeration of registration sets x all registration-order permutations x controlled map-iteration orders on the real container; differential oracle against the reference order",
+ "Every configuration (all digraphs on <=3 services x per-target forms x lifetime patterns; 4-service DAGs; two-member groups with dependent members) is built under ALL permutations of its registration calls and under canonical, reversed and every single-deviation map iteration order: verdict class and canonical object graph must coincide with the reference order, and recorder stamps must show every singleton finished before its dependents started (group edges included). TopologicalSort is checked on all 543 labelled DAGs on <=4 nodes under the same order deviations.",
+ "map order deviation bound 1 (2 in thorough for the graph component); no claim beyond 4 services",
+ "DESIGN.md 6/C06")
+claimed["C17"] = (
+ "exhaustive operation-sequence enumeration on the real collection against a reference registry, with reflective deep-dump comparison for atomicity and a differential snapshot oracle",
+ "Every sequence to depth 3/4 over 20 operations (14 Add forms incl. colliding multi-output and invalid options, Remove/RemoveKeyed, AddModules): queries equal the reference registry after every step, rejected calls leave the deep dump unchanged, Build does not change the dump, no constructor of a removed/rejected registration runs, the full identity universe of the built provider equals the model, and a provider built earlier answers identically after each of 6 later mutations of the collection.",
+ "depth 3 (quick) / 4 (thorough); pool of 6 types, keys {k}, groups {g}",
+ "DESIGN.md 6/C17")
